@@ -433,6 +433,12 @@ func main() {
 			cases = append(cases, Case{Scenario: "T5-close-with-queued", N: n, M: m})
 		}
 	}
+	// long abandoned responses: far more packages pending in one packet than the queue holds
+	for _, n := range []int{5, 6, 7, 8, 9, 10, 13} {
+		for m := 0; m <= 1; m++ {
+			cases = append(cases, Case{Scenario: "T5-close-with-queued", N: n, M: m})
+		}
+	}
 	for n := 0; n <= 2; n++ {
 		cases = append(cases, Case{Scenario: "T6-close-peer", N: n})
 		cases = append(cases, Case{Scenario: "T4-conn-close", N: n})
